@@ -53,6 +53,14 @@ func genC16(tier string, seed uint64, emit func(string)) {
 			emit(fmt.Sprintf("snap %s %d %d %d %d", kind, size, 2+r.Intn(2), ms, r.U64()%1000000))
 		}
 	}
+	// keys with a time to live that are overwritten around the moment it elapses: an acknowledged plain SET stays
+	ttlRuns := 2
+	if tier == "thorough" {
+		ttlRuns = 12
+	}
+	for i := 0; i < ttlRuns; i++ {
+		emit(fmt.Sprintf("snap ttl %d %d 0 %d", []int{4000, 16000}[i%2], 4+r.Intn(5), r.U64()%1000000))
+	}
 	// large arguments from several clients at once (what a command is given is what its client sent, whatever buffers the
 	// request passed through on the way)
 	for _, size := range []int{5000, 49152, 200000} {
@@ -263,6 +271,9 @@ func runSnap(toks []string) Result {
 	kind := toks[1]
 	if kind == "mget" || kind == "hmget" {
 		return runMGetSnap(toks)
+	}
+	if kind == "ttl" {
+		return runTTLSnap(toks)
 	}
 	size, _ := strconv.Atoi(toks[2])
 	readers, _ := strconv.Atoi(toks[3])
